@@ -447,9 +447,14 @@ def make_violation(t, ctx, r, origin):
     return {"sig": sig, "what": "`%s`: %s (folded: %s; unfolded: %s)" % (
         folded_text if len(folded_text) < 80 else folded_text[:77] + "...", r["cls"], brief(r["f"]), brief(r["u"])),
             "rank": len(folded_text),
-            "witness": {"tree": t, "context": ctx, "expression": folded_text, "folded": list(r["f"]),
-                        "unfolded": list(r["u"]), "referee": referee(t, ctx, r["f"], r["u"]),
+            "witness": {"tree": t, "context": ctx, "expression": folded_text, "folded": unthread(r["f"]),
+                        "unfolded": unthread(r["u"]), "referee": referee(t, ctx, r["f"], r["u"]),
                         "found_in": origin, "files": {"folded.ms": r["fs"], "unfolded.ms": r["us"]}}}
+
+
+def unthread(side):
+    """Side state as a list with thread ids of panic messages masked (deterministic witness text)."""
+    return [re.sub(r"\(\d+\) panicked", "(<tid>) panicked", x) if isinstance(x, str) else x for x in side]
 
 
 def brief(side):
@@ -578,10 +583,10 @@ def atoms(with_widened=True):
 
 
 def avoid(t):
-    """Constructs of unrepaired findings, kept out of every tree outside the catalogue.  None at present: the rules
-    neg_of_negative_constant, neg_of_integer_zero, neg_over_lost_bits_shl, or_over_widened_int_literal (and the
-    typeof rule typeof_skipped_with_widened_int_literal) were removed when /repo repaired the defects
-    (30218e2, 1268d94, cde7bb8); the catalogue still pins every one of them."""
+    """Constructs of unrepaired findings, kept out of every tree outside the catalogue (which pins them).  None at
+    present.  Removed when /repo repaired the defects (30218e2, 1268d94, cde7bb8, 5f5c05a): neg_of_negative_constant,
+    neg_of_integer_zero, neg_over_lost_bits_shl, or_over_widened_int_literal, typeof_skipped_with_widened_int_literal,
+    neg_of_min_constant."""
     return None
 
 
@@ -647,6 +652,9 @@ def catalogue():
     cases.append((neg(("bin", "-", lit("0"), lit("5"))), "plain"))
     cases.append((neg(("bin", "-", lit("B0"), lit("B5"))), "plain"))
     cases.append((neg(("bin", "*", lit("0.0"), neg(lit("1.5")))), "plain"))
+    # minus of a constant that is the minimum of its kind (repaired finding 5f5c05a: compiled, then failed at run time)
+    cases.append((neg(("bin", "-", neg(lit("2147483647")), lit("1"))), "plain"))
+    cases.append((neg(("bin", "-", neg(lit("B170141183460469231731687303715884105727")), lit("B1"))), "plain"))
     # the text "-0" of a negated integer zero (repaired finding): was read as -0.0 by the float folder and refused
     # as a shift amount
     cases.append((("bin", "*", neg(lit("0")), lit("1.5")), "plain"))
